@@ -677,6 +677,7 @@ impl Runner {
                 belief,
                 max_spread,
                 to,
+                from: None,
             },
         }
     }
@@ -827,10 +828,35 @@ impl Runner {
                 }
             }
             let to = self.pick_to(who);
+            let mut op = self.swap_op(i, &p.refs[oi], a, belief, max_spread, to);
+            let mut pre = vec![];
+            if matches!(op, Op::SwapHook { .. }) && self.rng.chance(8, 100) {
+                // allowance-based entry: spend another actor's tokens (cw20 SendFrom)
+                let owner = self.random_actor();
+                let ob = self.bal(&p.keys[oi], &owner);
+                if owner != who && ob > 0 {
+                    if let Op::SwapHook { from, sent, offer, .. } = &mut op {
+                        let amt = sent.u128().min(ob);
+                        *sent = u(amt);
+                        offer.amount = u(amt);
+                        *from = Some(AddrRef::Actor(owner.clone()));
+                        pre.push((
+                            AddrRef::Actor(owner),
+                            Op::Approve {
+                                token: p.refs[oi].clone(),
+                                spender: AddrRef::Actor(who.to_string()),
+                                amount: u(amt),
+                                expires: Expiry::Never,
+                            },
+                        ));
+                        note.push_str(" send-from");
+                    }
+                }
+            }
             return Some(Proto {
                 sender: AddrRef::Actor(who.to_string()),
-                pre: vec![],
-                op: self.swap_op(i, &p.refs[oi], a, belief, max_spread, to),
+                pre,
+                op,
                 note,
             });
         }
